@@ -17,12 +17,28 @@ class Kit:
         self.r = r
         self.rt, self.bo, self.fx, self.br, self.ar, self.pk, self.la = env.rt, env.bo, env.fx, env.br, env.ar, env.pk, env.la
         self.P = env.P
+        self.operands = []      # [(name, ('priv'|'pub', index))] wires created for the harness inputs, in order
+
+    def _rec(self, nm, kind):
+        rec = self.env.rec
+        n = len(rec.privvals) if kind == "priv" else len(rec.pubvals)
+        self.operands.append((nm, (kind, n - 1)))
 
     def v(self, nm): return self.vals[nm]
-    def S(self, nm): return self.rt.PrivVal(self.vals[nm])
-    def Pub(self, nm): return self.rt.PubVal(self.vals[nm])
-    def B(self, nm): return self.bo.PrivValBool(self.vals[nm])
-    def F(self, nm): return self.fx.PrivValFxp(self.vals[nm], False)   # input = representation integer
+
+    def S(self, nm):
+        r = self.rt.PrivVal(self.vals[nm]); self._rec(nm, "priv"); return r
+
+    def Pub(self, nm):
+        r = self.rt.PubVal(self.vals[nm]); self._rec(nm, "pub"); return r
+
+    def B(self, nm):
+        r = self.bo.PrivValBool(self.vals[nm]); self._rec(nm, "priv"); return r
+
+    def F(self, nm):                       # input = representation integer
+        r = self.fx.PrivValFxp(self.vals[nm], False); self._rec(nm, "priv"); return r
+
+    G = S                                  # guard wires are operands too
 
 
 def flat(o):
@@ -75,7 +91,7 @@ def run_concrete(env, entry, cfg, inputs):
         rt.ignore_errors(True)
     fn = lambda: entry.fn(k)
     for gn in reversed(gnames):
-        fn = (lambda inner, gn=gn: (lambda: rt.guarded(rt.PrivVal(inputs[gn]))(inner)()))(fn)
+        fn = (lambda inner, gn=gn: (lambda: rt.guarded(k.G(gn))(inner)()))(fn)
     if gmode in (0, 1):
         fn = (lambda inner: (lambda: rt.guarded(rt.PrivVal(gmode))(inner)()))(fn)
     out = dict(outcome="ok", result=None, exc=None, state=None, ref=None, kit=k)
